@@ -42,9 +42,11 @@ Definition release_entry_targets (fixed : bool) (root rdir : pypath)
   else if fixed && negb (hash_component_ok h) then None
   else
     let rp := pjoin rdir p in
-    (* the last element is the path of the uncompressed variant every index
-       group gets (DownloadFile.from_hashed_path / __post_init__) *)
-    Some ((if ubh then [hashed_path rp t h; rp] else [rp]) ++ [uncompressed_path rp]).
+    (* pinned code: every index group also kept an implicit size-less variant at
+       the uncompressed path (DownloadFile.from_hashed_path / __post_init__);
+       since fix 959553c explicit variants replace it *)
+    Some ((if ubh then [hashed_path rp t h; rp] else [rp])
+          ++ (if fixed then [] else [uncompressed_path rp])).
 
 (* (b) Packages "Filename:" value *)
 Definition packages_targets (fixed : bool) (root : pypath) (filename : string)
